@@ -117,4 +117,5 @@ def run(c, prog):
     from . import C03_gram
     C03_gram.run(c, prog)
     C03_gram.rule_examples(c, prog)
+    C03_gram.rule_carrier(c, prog)
     c.not_decided += ["acceptance by an independent decoder (a run)", "PRNT order / exactly-once for every tree shape", "lz4/zstd length fields vs compressed payload (third party)"]
